@@ -2,7 +2,7 @@
 """Turns the output of scripts/mutant_matrix.sh (lines `MATRIX <change> <check> rc=<n> ...`) into seeded/MATRIX.md and
 fills `caught_by` in every seeded/<id>/meta.json.
 
-usage: scripts/make_matrix.py <matrix log> [<commit the log was produced at>]
+usage: scripts/make_matrix.py <matrix log>[:<commit>] [<newer log>[:<commit>] ...]
 """
 import glob
 import json
@@ -10,20 +10,22 @@ import os
 import re
 import sys
 
-log = sys.argv[1]
-commit = sys.argv[2] if len(sys.argv) > 2 else 'unknown'
+# arguments: <log>[:<commit>] ... ; results of later logs override those of earlier ones (the last log is the newest harness)
+logs = [a.split(':', 1) if ':' in a else [a, 'unknown'] for a in sys.argv[1:]]
+commit = ', '.join('%s (%s)' % (os.path.basename(l), cmt) for l, cmt in logs)
 root = os.path.join(os.path.dirname(os.path.abspath(__file__)), '..')
 checks = ['C%02d' % i for i in range(1, 21)]
 res = {}
 notapply = set()
-for line in open(log, errors='replace'):
-    m = re.match(r'MATRIX (\S+) (\S+) rc=(\d+)', line)
-    if m:
-        res.setdefault(m.group(1), {})[m.group(2)] = int(m.group(3))
-        continue
-    m = re.match(r'MATRIX (\S+) - does-not-apply', line)
-    if m:
-        notapply.add(m.group(1))
+for log, _ in logs:
+    for line in open(log, errors='replace'):
+        m = re.match(r'MATRIX (\S+) (\S+) rc=(\d+)', line)
+        if m:
+            res.setdefault(m.group(1), {})[m.group(2)] = int(m.group(3))
+            continue
+        m = re.match(r'MATRIX (\S+) - does-not-apply', line)
+        if m:
+            notapply.add(m.group(1))
 
 
 def natural(name):
@@ -37,8 +39,9 @@ out = []
 out.append('# Seeded changes and sensitivity patches: which check catches what')
 out.append('')
 out.append('Produced by `scripts/mutant_matrix.sh` (every change applied to a scratch copy of the repository, every check\'s quick')
-out.append('tier run against it) at /verif commit `%s`; rendered by `scripts/make_matrix.py`. `X` = the check reported a violation' % commit)
-out.append('(exit 1), `.` = held (exit 0), `?` = inconclusive / build failure (exit 2). The column of the property the change was')
+out.append('tier run against it); logs and the /verif commits they were produced at, oldest first, later results override earlier ones:')
+out.append('%s. Rendered by `scripts/make_matrix.py`. `X` = the check reported a violation' % commit)
+out.append('(exit 1), `.` = held (exit 0), `?` = inconclusive / build failure (exit 2), blank = not run. The column of the property the change was')
 out.append('written against is marked with `[ ]`. Results of background runs are not evidence; they document sensitivity only.')
 out.append('')
 
@@ -62,11 +65,14 @@ def table(names, own):
 out.append('## Changes written by sub-agents (`seeded/<id>/`)')
 out.append('')
 out += table(seeded, lambda n: n.split('-')[0])
-own_miss = [n for n in seeded if res[n].get(n.split('-')[0]) != 1]
+own_miss = [n for n in seeded if res[n].get(n.split('-')[0]) in (0, 2)]
+own_not_run = [n for n in seeded if n.split('-')[0] not in res[n]]
 none = [n for n in seeded if 1 not in res[n].values()]
 out.append('')
 out.append('%d seeded changes; caught by the check of their own property: %d; caught by no check at all: %d%s.' % (
     len(seeded), len(seeded) - len(own_miss), len(none), (' (' + ', '.join(none) + ')') if none else ''))
+if own_not_run:
+    out.append('Own-property check not run for: ' + ', '.join(own_not_run) + '.')
 if own_miss:
     out.append('Not caught by their own property\'s check (caught elsewhere): ' + ', '.join(
         '%s (%s)' % (n, ' '.join(c for c in checks if res[n].get(c) == 1) or 'none') for n in own_miss) + '.')
